@@ -216,6 +216,12 @@ static int hash_value(const char *value, EVP_MD_CTX *ctx)
 
 static int hash_item(const struct item *item, EVP_MD_CTX *ctx, void *log_ref)
 {
+    /* tag each item with its type and length, to keep the digest
+       input an injective function of the four items */
+    size_t len = item->type != item_type_none ? strlen(item->data) : 0;
+    EVP_DigestUpdate(ctx, &item->type, sizeof(item->type));
+    EVP_DigestUpdate(ctx, &len, sizeof(len));
+
     switch (item->type) {
     case item_type_none:
 	return 0;
